@@ -156,10 +156,24 @@ check("C10", "other",
       "idempotence on these documents follows. Rewriting of failing tests, front-matter, inline configuration and CRLF documents are not claimed.",
       E2_NOTE + " Additionally trusts lib/miniregex.py.", E2_TECH, "E2", "DESIGN.md §3 C10")
 
+check("C20", "other",
+      "Partial: the accounting and exit status of `scrut test`, given what the executors return. On the MIR of the whole "
+      "commands::test::Args::run (bin crate, 576 blocks, with its configuration plumbing) and of main, with document discovery, "
+      "environment, executor, validation verdict (free Boolean per executed test case), UI and renderer stubbed: documents are executed "
+      "once each in the given order; every executor call receives prepend + own + append test cases (own in order); exactly one result "
+      "per test case that is not detached and at most one per test case, in order, of the prescribed kind (validated / timed out / "
+      "skipped); a skipped document never fails the run; after a time-out the rest is skipped; run returns Err(ValidationFailed) iff "
+      "something failed or timed out, another error iff a document could not be executed; main maps these to 50 / 1 / 0. Executor calls "
+      "of <= 3/4 test cases (5 with a reduced alphabet), every result shape; 2 documents with representative results. Witnesses are replayed "
+      "through the real binary on real documents. That the executors run each test case once and in order, file discovery, parse errors, "
+      "Cram/directories are not claimed.",
+      E2_NOTE + " Stubs as listed in the evidence; the executor-result shapes are validated every run by real `scrut test` runs on sampled scripts.",
+      "bounded symbolic execution of the MIR of commands::test::Args::run and main (bin crate) with a scripted executor and free validation verdicts; "
+      "z3 decides each path's postcondition; witnesses replayed end to end through the real scrut binary", "E2", "DESIGN.md §3 C20")
+
 NA_LIST = [
     ("C12", "Shell-state carry-over is implemented by a bash script; no encoding of bash semantics is available here."),
     ("C18", "File-system / process-exit effects (TempDir Drop, directory uniqueness); outside any encoding available here."),
-    ("C20", "commands::test::Args::run is a 330-line function interleaving file discovery, progress bars, executors, renderers and counting; only main's three-way exit mapping is a loop-free region — too small a part of the property to claim it."),
 ]
 PENDING = []
 
